@@ -4,7 +4,7 @@ import traceback
 
 from . import base
 
-MODULES = ['flags', 'chain', 'core', 'globc', 'matchc', 'walkc', 'more', 'fsmatch', 'small', 'iterc', 'splitc']
+MODULES = ['flags', 'chain', 'core', 'globc', 'matchc', 'walkc', 'more', 'fsmatch', 'small', 'iterc', 'splitc', 'parserc']
 
 
 def all_contracts():
